@@ -19,7 +19,8 @@ Inductive cell :=
 | CS (s : string)
 | CNone.                (* None / pd.NA *)
 Inductive dtype := DFloat | DInt | DBool | DObject | DNullInt | DString
-| DObjNum.   (* an object column whose non-missing cells are all ints/floats: pandas parses it as a float array *)
+| DObjNum.   (* an object column whose non-missing cells are all ints/floats and that holds a float or a missing value:
+                pandas parses it as a float array (an all-int column without missing values keeps its ints) *)
 Inductive jtok := JNum (q : Q) | JInt (z : Z) | JNull | JBool (b : bool) | JStr (s : string) | JRangeError.
 
 Definition p10 (n : nat) : Q := inject_Z (Z.pow 10 (Z.of_nat n)).
